@@ -56,7 +56,12 @@ var WatchLevels = []int{-1, 0, 1, 2, 3, 4, 5, 6, 7, 8}
 // without events after which the driver declares quiescence.
 var (
 	SyncTimeout = 3 * time.Second
-	Quiesce     = 2 * time.Second
+	// PersistT: a timing-dependent observation of the free workloads (a call that
+	// has not returned, a handler that has not returned, a router that is left)
+	// becomes a verdict only if it still holds this long after the normal bound;
+	// every timer of those workloads is below 100 ms
+	PersistT = 20 * time.Second
+	Quiesce  = 2 * time.Second
 )
 
 var (
